@@ -36,4 +36,10 @@ func (*ids).Put
   ensures mapHasKey(s.values, strkey(value))
   ensures forall k int :: old(mapHasKey(s.values, k)) ==> mapHasKey(s.values, k)
   modifies mapcontents(s.values)
+
+// a new id set is a freshly allocated, empty one (so heading ids depend only on the document, C15/C06)
+func newIDs
+  ensures result != nil && fresh(ifptr(result, "*ids")) && ifptr(result, "*ids").values != nil
+  ensures forall k int :: !mapHasKey(ifptr(result, "*ids").values, k)
+  modifies nothing
 @*/
